@@ -32,7 +32,8 @@ def rule_dtype(model: Model, funcs):
     for fs in funcs:
         f = model.func(fs)
         for n in ast.walk(f.node):
-            if isinstance(n, ast.Call) and model.resolve(f.module, n.func) in ("torch.ones", "torch.zeros", "torch.eye"):
+            if isinstance(n, ast.Call) and model.resolve(f.module, n.func) in ("torch.ones", "torch.zeros", "torch.eye", "torchtt._extras.ones",
+                                                                              "torchtt._extras.zeros", "torchtt._extras.eye"):
                 kw = {k.arg: k.value for k in n.keywords}
                 k = f"{fs}:DTYPE:{norm(n)[:70]}"
                 if "dtype" in kw and (".dtype" in norm(kw["dtype"]) or norm(kw["dtype"]) == "dtype"):
@@ -41,6 +42,10 @@ def rule_dtype(model: Model, funcs):
                     obs.append(Ob("DTYPE", k, VIOLATED, model.where(f, n), norm(n)[:100],
                                   f"constant created with the fixed dtype `{norm(kw['dtype'])}`: combined with the operand's cores it "
                                   "changes the result dtype (e.g. float32 operands promoted to float64)"))
+                elif (model.resolve(f.module, n.func) or "").startswith("torchtt._extras."):
+                    obs.append(Ob("DTYPE", k, VIOLATED, model.where(f, n), norm(n)[:100],
+                                  "library factory called without dtype inside an arithmetic branch: it defaults to float64, so the result of "
+                                  "the operation does not keep the operand's dtype (complex / float32 operands)"))
                 else:
                     obs.append(Ob("DTYPE", k, INFO, model.where(f, n), norm(n)[:100],
                                   "constant created without dtype (torch default float32): exact after promotion for float32/64 and "
